@@ -23,6 +23,10 @@ pub struct Pushes {
   pub full: bool,
   pub capacity: usize,
   pub segs: Vec<Seg>,
+  /// Some(f): the builder is re-used: to_bmoc() is also called after the first f/1000 of the pushes
+  /// (and once more right after the last one)
+  #[serde(default)]
+  pub reuse: Option<u16>,
 }
 
 #[derive(Clone, Debug, Serialize, Deserialize)]
@@ -88,6 +92,10 @@ pub fn check_pushes(c: &Pushes, rec: &mut Rec) -> Result<(), Violation> {
   }
   rec.sample(|| json!(c));
   let f = |v: Violation| v.fact("depth", c.depth as f64).fact("capacity", c.capacity as f64).fact("full", c.full as u8 as f64).fact("n_pushes", seq.len() as f64);
+  if let Some(fr) = c.reuse {
+    rec.class("builder_reused");
+    return check_reuse(c, &seq, (seq.len() * fr as usize) / 1000);
+  }
   let r = catch(|| {
     let mut b = BMOCBuilderFixedDepth::with_capacity(c.depth, c.full, c.capacity);
     for &h in &seq {
@@ -138,6 +146,165 @@ pub fn check_pushes(c: &Pushes, rec: &mut Rec) -> Result<(), Violation> {
         )));
       }
     }
+  }
+  Ok(())
+}
+
+/// A builder that is used again after `to_bmoc(&mut self)`.  The first result is the single-use
+/// claim (exactly the cells pushed so far).  For the later results the statement can be read in two
+/// ways (the cells pushed since the previous call -- what the code does -- or all the cells pushed
+/// so far); the check only demands what both readings share: a valid BMOC of the requested flag
+/// that covers every cell pushed since the previous call and nothing that was never pushed, and
+/// `None` only if nothing was pushed since the previous call.
+fn check_reuse(c: &Pushes, seq: &[u64], k: usize) -> Result<(), Violation> {
+  let f = |v: Violation| v.fact("depth", c.depth as f64).fact("capacity", c.capacity as f64).fact("full", c.full as u8 as f64).fact("n_pushes", seq.len() as f64).fact("reused", 1.0);
+  let r = catch(|| {
+    let mut b = BMOCBuilderFixedDepth::with_capacity(c.depth, c.full, c.capacity);
+    for &h in &seq[..k] {
+      b.push(h);
+    }
+    let r1 = b.to_bmoc();
+    for &h in &seq[k..] {
+      b.push(h);
+    }
+    let r2 = b.to_bmoc();
+    let r3 = b.to_bmoc();
+    (r1, r2, r3)
+  });
+  let (r1, r2, r3) = match r {
+    Ok(r) => r,
+    Err(p) => return Err(f(Violation::new("fixed_depth_builder", "panic", format!("re-used builder(depth {}, full {}, capacity {}), to_bmoc() after {} of the pushes {:?}..: panicked: {}", c.depth, c.full, c.capacity, k, &seq[..seq.len().min(24)], p)))),
+  };
+  let all: BTreeSet<u64> = seq.iter().copied().collect();
+  let parts: [(&str, Option<cdshealpix::nested::bmoc::BMOC>, BTreeSet<u64>, bool); 3] = [
+    ("first", r1, seq[..k].iter().copied().collect(), true),
+    ("second", r2, seq[k..].iter().copied().collect(), false),
+    ("third", r3, BTreeSet::new(), false),
+  ];
+  for (name, r, since, exact) in parts.iter() {
+    match r {
+      None => {
+        if !since.is_empty() {
+          return Err(f(Violation::new("fixed_depth_builder", "nothing_returned", format!("re-used builder: the {} to_bmoc() returned None although {} cells were pushed since the previous call", name, since.len()))));
+        }
+      }
+      Some(b) => {
+        if *exact && since.is_empty() {
+          return Err(f(Violation::new("fixed_depth_builder", "something_from_nothing", "to_bmoc() returned a BMOC although nothing was pushed".to_string())));
+        }
+        let cells = bc::model_cells("fixed_depth_builder", "output of a re-used builder", b).map_err(|v| f(v))?;
+        if b.get_depth_max() != c.depth {
+          return Err(f(Violation::new("fixed_depth_builder", "wrong_depth_max", format!("depth_max {} instead of {}", b.get_depth_max(), c.depth))));
+        }
+        if let Some(bad) = cells.iter().find(|x| x.full != c.full) {
+          return Err(f(Violation::new("fixed_depth_builder", "wrong_flag", format!("re-used builder, {} result: cell {}/{} has flag {} but the builder was created with {}", name, bad.depth, bad.hash, bad.full, c.full))));
+        }
+        let got = mb::to_intervals(c.depth, c.depth, &cells);
+        let covered = |h: u64| got.iter().any(|i| i.start <= h && h < i.end);
+        let missing: Vec<u64> = since.iter().filter(|h| !covered(**h)).take(5).copied().collect();
+        // leaves covered but never pushed (the pushed sets are small: walk the intervals against the set)
+        let mut extra: Vec<u64> = vec![];
+        let allowed: &BTreeSet<u64> = if *exact { since } else { &all };
+        for i in &got {
+          let n_allowed = allowed.range(i.start..i.end).count() as u64;
+          if n_allowed != i.end - i.start {
+            extra.push((i.start..i.end).find(|h| !allowed.contains(h)).unwrap_or(i.start));
+            if extra.len() >= 5 {
+              break;
+            }
+          }
+        }
+        if !missing.is_empty() || !extra.is_empty() {
+          return Err(f(Violation::new(
+            "fixed_depth_builder",
+            "wrong_set",
+            format!("re-used builder(depth {}, full {}, capacity {}), {} to_bmoc() (first call after {} of {} pushes): cells pushed since the previous call but not covered e.g. {:?}; covered but never pushed e.g. {:?}; pushes {:?}..", c.depth, c.full, c.capacity, name, k, seq.len(), missing, extra, &seq[..seq.len().min(24)]),
+          )));
+        }
+      }
+    }
+  }
+  Ok(())
+}
+
+/// One very long run of consecutive cells in a single buffer load: the lengths at which the
+/// builder has to decide how large a coarse cell the run fills (4^k and the lengths next to it).
+#[derive(Clone, Debug, Serialize, Deserialize)]
+pub struct LongRun {
+  pub depth: u8,
+  pub full: bool,
+  /// None: `BMOCBuilderFixedDepth::new` (10^7), Some(c): with_capacity(c)
+  pub capacity: Option<usize>,
+  pub start: u64,
+  pub len: u64,
+  /// isolated cells pushed after the run
+  pub tail: Vec<u64>,
+}
+
+fn make_long_run(idx: u64, kmin: u8) -> LongRun {
+  let variant = idx % 4;
+  let short = ((idx / 4) % 50) as i64 - 2;
+  let k = kmin + (idx / 200) as u8;
+  let block = 1u64 << (2 * k as u32);
+  let len = (block as i64 - short).max(1) as u64;
+  let (depth, b) = match variant {
+    0 => (k, 0u64),
+    1 => (k + 2, 5),
+    2 => (29.min(k + 9), 1027),
+    _ => (k + 1, 3),
+  };
+  let start = b * block;
+  let tail = if variant >= 1 { vec![start + block + 3, start + block + 9] } else { vec![] };
+  LongRun { depth, full: variant != 3, capacity: if variant == 2 { Some(len as usize + 10) } else { None }, start, len, tail }
+}
+
+pub fn check_long_run(c: &LongRun, rec: &mut Rec) -> Result<(), Violation> {
+  rec.eval();
+  rec.class(&format!("log4_len:{}", (c.len as f64).log2().round() as u32 / 2));
+  rec.nontrivial(fp_of(&(c.depth, c.start, c.len, &c.tail)));
+  rec.sample(|| json!(c));
+  let f = |v: Violation| v.fact("depth", c.depth as f64).fact("full", c.full as u8 as f64).fact("n_pushes", c.len as f64);
+  let r = catch(|| {
+    let mut b = match c.capacity {
+      None => BMOCBuilderFixedDepth::new(c.depth, c.full),
+      Some(cap) => BMOCBuilderFixedDepth::with_capacity(c.depth, c.full, cap),
+    };
+    for h in c.start..c.start + c.len {
+      b.push(h);
+    }
+    for &h in &c.tail {
+      b.push(h);
+    }
+    b.to_bmoc()
+  });
+  let b = match r {
+    Ok(Some(b)) => b,
+    Ok(None) => return Err(f(Violation::new("fixed_depth_builder", "nothing_returned", format!("to_bmoc() returned None although {} cells were pushed", c.len)))),
+    Err(p) => return Err(f(Violation::new("fixed_depth_builder", "panic", format!("builder(depth {}) panicked on the run {}..{}: {}", c.depth, c.start, c.start + c.len, p)))),
+  };
+  let cells = bc::model_cells("fixed_depth_builder", "builder output", &b).map_err(|v| f(v))?;
+  if let Some(bad) = cells.iter().find(|x| x.full != c.full) {
+    return Err(f(Violation::new("fixed_depth_builder", "wrong_flag", format!("cell {}/{} has flag {} but the builder was created with {}", bad.depth, bad.hash, bad.full, c.full))));
+  }
+  let got: Vec<(u64, u64)> = mb::to_intervals(c.depth, c.depth, &cells).iter().map(|i| (i.start, i.end)).collect();
+  let mut want: Vec<(u64, u64)> = vec![(c.start, c.start + c.len)];
+  for &h in &c.tail {
+    let l = want.last_mut().unwrap();
+    if h < l.1 {
+      continue;
+    }
+    if l.1 == h {
+      l.1 = h + 1;
+    } else {
+      want.push((h, h + 1));
+    }
+  }
+  if got != want {
+    return Err(f(Violation::new(
+      "fixed_depth_builder",
+      "wrong_set",
+      format!("builder(depth {}, full {}, capacity {:?}): pushed the run {}..{} ({} cells = 4^{} {:+}) then {:?}; the result covers the leaf intervals {:?} instead of {:?}", c.depth, c.full, c.capacity, c.start, c.start + c.len, c.len, ((c.len as f64).log2() / 2.0).round(), c.len as i64 - (1i64 << (2 * ((c.len as f64).log2() / 2.0).round() as u32)), c.tail, &got[..got.len().min(6)], want),
+    )));
   }
   Ok(())
 }
@@ -295,7 +462,7 @@ fn strat_pushes() -> BoxedStrategy<Pushes> {
         1 => 1u32..=4,
       ];
       let seg = (0u8..4, start, len).prop_map(|(kind, start, len)| Seg { kind, start, len });
-      (prop::collection::vec(seg, 0..14), prop::collection::vec((0usize..14, any::<bool>()), 0..4)).prop_map(move |(mut segs, reps)| {
+      (prop::collection::vec(seg, 0..14), prop::collection::vec((0usize..14, any::<bool>()), 0..4), (prop::bool::weighted(0.2), 0u16..=1000)).prop_map(move |(mut segs, reps, reuse)| {
         // re-push earlier runs (distant duplicates)
         for (k, rev) in reps {
           if !segs.is_empty() {
@@ -306,7 +473,7 @@ fn strat_pushes() -> BoxedStrategy<Pushes> {
             segs.push(s);
           }
         }
-        Pushes { depth, full, capacity, segs }
+        Pushes { depth, full, capacity, segs, reuse: if reuse.0 { Some(reuse.1) } else { None } }
       })
     })
     .boxed()
@@ -356,12 +523,16 @@ fn pack_model(s: &Spec) -> Spec {
 
 pub fn run(ctx: &Ctx, rep: &mut Report) {
   ctx.run_random(rep, "fixed_depth_builder", strat_pushes, ctx.tier.pick(300_000, 15_000_000), check_pushes);
+  // k = 5..=11 (quick) / 5..=12 (thorough; 4^12 cells exceed the default capacity: several loads)
+  let kmax = ctx.tier.pick(11u64, 12u64);
+  ctx.run_enum(rep, "long_runs", 200 * (kmax - 4), |i| make_long_run(i, 5), check_long_run);
   ctx.run_random(rep, "pack_and_lower", strat_pack, ctx.tier.pick(600_000, 30_000_000), check_pack);
 }
 
 pub fn replay(ctx: &Ctx, rep: &mut Report, section: &str, case: &Value) -> Result<(), String> {
   match section {
     "fixed_depth_builder" => ctx.run_one(rep, section, &super::de::<Pushes>(case)?, check_pushes),
+    "long_runs" => ctx.run_one(rep, section, &super::de::<LongRun>(case)?, check_long_run),
     _ => ctx.run_one(rep, section, &super::de::<PackCase>(case)?, check_pack),
   }
   Ok(())
